@@ -789,7 +789,7 @@ func backFaultClass(t *gty, v reflect.Value, text string) string {
 	switch {
 	case strings.Contains(text, "Set on zero Value") && ifaceNilSlot(t, v):
 		return "iface-slice-panic"
-	case strings.Contains(text, "Key of non-map type") && t.has("struct"):
+	case strings.Contains(text, "of non-map type") && t.has("struct"):
 		return "plain-struct-hash"
 	case strings.Contains(text, "MakeSlice of non-slice type") && t.has("array"):
 		return "array-reflect-to"
